@@ -355,6 +355,11 @@ def case_message(rec, hi, ii, bb, br):
         rec.violation('serialize-raises', f'{what}: serialize raised {exc_name(e)}: {e} although {len(pls)} valid placement(s) exist ({", ".join(n for n, _ in pls)})', 'case_message', args)
         rec.outcome('serialize raised')
         return
+    try:
+        if lm_lib(msg) != want or msg.serialize().hash != cell.hash:
+            rec.violation('serialize-not-repeatable', f'{what}: serialising changed the message object or a second serialisation gives another cell', 'case_message', args)
+    except Exception as e:
+        rec.violation('serialize-not-repeatable', f'{what}: second serialize raised {exc_name(e)}: {e}', 'case_message', args)
     # (2) independent decode
     try:
         got, placement = lm_ref(from_lib(cell))
